@@ -204,8 +204,8 @@ func solveOne(o *Obligation, idx int, dir string, opts solveOpts) {
 		}
 		n++
 		to := opts.timeout
-		if o.ctx.bv && to < 90 {
-			to = 90 // bit-precise float queries are slower; keep a wide margin
+		if o.ctx.bv && to < 120 {
+			to = 120 // bit-precise float queries are slower; keep a wide margin
 		}
 		go func(sd solverDef) {
 			a, out, dt := runSolver(sd, file, to)
